@@ -84,7 +84,7 @@ def run_engine(prop, tier, seed, invariants, jobs, rd, fxv, classify=None):
                                % (x["info"], " ".join(x["args"])), "replay": p, "key": "hang"})
             if os.path.exists(x["trace"]):
                 traces.append(x["trace"])
-        elif x["rc"] == 101 or "panicked" in x["stderr"]:
+        elif v.panic_in_code_under_test(x["stderr"]):
             p = v.save_replay(prop.lower(), x["tag"] + ".args.json", {"args": x["args"], "stderr": x["stderr"]})
             violations.append({"what": "panic in the code under test: %s" % x["stderr"][-400:],
                                "replay": p, "key": "panic"})
